@@ -62,8 +62,12 @@ Theorem C12_identity_rule_conditions : forall c t r, c_rule c = false -> apply_i
 Proof. intros c t r H. unfold apply_item. cbn [fst]. rewrite H. reflexivity. Qed.
 Print Assumptions C12_identity_rule_conditions.
 
-(* field name mappings that map nothing (empty mapping, no prefix matches) *)
-Theorem C12_identity_fieldmap : forall c afn r, (forall f, afn f = FNone) -> apply_fieldmap c afn r = r.
+(* field name mappings that map nothing (empty mapping, no prefix matches): every detection keeps its
+   meaning (items holding field references in scope are still marked as processed), condition and fields
+   list are unchanged *)
+Theorem C12_identity_fieldmap : forall asg c afn r, (forall f, afn f = FNone) ->
+  meanings asg (apply_fieldmap c afn r) = meanings asg r /\
+  r_cond (apply_fieldmap c afn r) = r_cond r /\ r_fields (apply_fieldmap c afn r) = r_fields r.
 Proof. exact identity_fieldmap. Qed.
 Print Assumptions C12_identity_fieldmap.
 
@@ -73,12 +77,12 @@ Proof. exact identity_values. Qed.
 Print Assumptions C12_identity_values.
 
 (* FULL STATEMENT for replace_string (false of the faithful model, D10 / D30):
-     forall c tbl r, (forall p, tbl_sub tbl p = p) -> rdocs_of (apply_tspec c (TReplace tbl) r) = rdocs_of r
+     forall asg c tbl r, (forall p, tbl_sub tbl p = p) -> meanings asg (apply_tspec c (TReplace tbl) r) = meanings asg r
    proved part: no value in scope is a number, and every string in scope survives the round trip through
    its plain form (replace_value_ok; fails exactly for a literal backslash directly before a wildcard) *)
-Theorem C12_identity_replace_string_partial : forall c tbl r,
-  (forall p, tbl_sub tbl p = p) -> rule_ok (item_exact_ok c (TReplace tbl)) r = true ->
-  rdocs_of (apply_tspec c (TReplace tbl) r) = rdocs_of r.
+Theorem C12_identity_replace_string_partial : forall asg c tbl r,
+  (forall p, tbl_sub tbl p = p) -> rule_ok (item_sem_ok c (TReplace tbl)) r = true ->
+  meanings asg (apply_tspec c (TReplace tbl) r) = meanings asg r.
 Proof. exact identity_replace. Qed.
 Print Assumptions C12_identity_replace_string_partial.
 
@@ -122,10 +126,22 @@ Theorem C12_add_condition_captured_refuted :
 Proof. exact add_condition_captured_refuted. Qed.
 Print Assumptions C12_add_condition_captured_refuted.
 
+(* a later item scoped by processing_item_applied sees the marks of an earlier item also on the copies of a
+   one-to-many mapping (repaired in the code): case (id A); f -> [x, y]; set_value 1 if A was applied *)
+Theorem C12_chain_marks :
+  pipeline_ok [PItem cA (TCase CUpper); PItem no_conds (TFieldMap [(Some [102%N], FMany [[120%N]; [121%N]])]);
+               PItem cC (TSetValue (ANum [49%N]))] chain_rule = true /\
+  rdocs_of (apply_pipeline [PItem cA (TCase CUpper); PItem no_conds (TFieldMap [(Some [102%N], FMany [[120%N]; [121%N]])]);
+                            PItem cC (TSetValue (ANum [49%N]))] chain_rule)
+  = [([115%N], All [Any [Entry (mkI (Some [120%N]) [V (ANum [49%N])] false false [[67%N]; [65%N]]);
+                         Entry (mkI (Some [121%N]) [V (ANum [49%N])] false false [[67%N]; [65%N]])]])].
+Proof. exact chain_marks_example. Qed.
+Print Assumptions C12_chain_marks.
+
 (* non-vacuity: the premises are met by a rule with a keyword list, a negated item and nested lists *)
 Example C12_premises_inhabited :
-  let r := mkR [([115%N], DD [DD [DI (mkI None [V (AStr false [PStr [107%N]])] false false)] true;
-                              DI (mkI (Some [102%N]) [V (AStr false [PStr [118%N]]); V ANull] true true)] false)] [115%N] [] in
+  let r := mkR [([115%N], DD [DD [DI (mkI None [V (AStr false [PStr [107%N]])] false false [])] true;
+                              DI (mkI (Some [102%N]) [V (AStr false [PStr [118%N]]); V ANull] true true [])] false)] [115%N] [] in
   pipeline_ok [PItem no_conds (TFieldMap [(None, FMany [[109%N]; [110%N]]); (Some [102%N], FMany [[97%N]; [98%N]])])] r = true /\
   pipeline_ok [PItem no_conds TDrop; PNest no_conds [(no_conds, TCase CUpper)]] r = true.
 Proof. split; reflexivity. Qed.
